@@ -618,4 +618,34 @@ OptContract(e) ==
                      Fl("assertion_stack_restored", e.stack_after = e.stack_before /\ e.depth_after = e.depth_before),
                      <<>>, -1)
 
+\* ------------------------------------------------------------------ C19
+(***************************************************************************)
+(* A portfolio query run with real forked member processes.                 *)
+(*   beh[i] in "sat" | "unsat" | "unknown" | "raise" | "crash_pre" |        *)
+(*             "ctor_raise" | "crash_post"     behaviour of member i        *)
+(*   rounds[r] = [res, model, value, served, winner] for each consecutive   *)
+(*   solve on the same Portfolio object: res in "sat" | "unsat" | "raised"  *)
+(*   | "blocked"; model = assignment returned by get_model (if asked),      *)
+(*   value = get_value of the conjunction; served = members that consumed a *)
+(*   control command; winner = member whose answer was taken                *)
+(*   asserts = the assertions (terms), verdict = what answering members say *)
+(***************************************************************************)
+Answers(b) == b \in {"sat", "unsat", "crash_post"}
+PortfolioContract(e) ==
+    LET n == Len(e.beh)
+        someone == \E i \in 1..n : Answers(e.beh[i])
+        Bad(r) ==
+            LET rd == e.rounds[r] IN
+            (IF someone THEN <<>> \o Fl("returns_members_verdict", rd.res = e.verdict)
+                        ELSE Fl("reports_error_when_every_member_fails", rd.res = "raised")) \o
+            Fl("never_blocks_forever", rd.res # "blocked") \o
+            Fl("only_the_winner_serves_control_commands", \A j \in 1..Len(rd.served) : rd.served[j] = rd.winner) \o
+            (IF rd.res = "sat" /\ rd.has_model
+             THEN Fl("model_satisfies_assertions", AllTrue(e.asserts, ModelOf(rd.model))) \o
+                  Fl("value_agrees_with_model", rd.value = "true")
+             ELSE <<>>)
+        RECURSIVE AllBad(_)
+        AllBad(r) == IF r = 0 THEN <<>> ELSE AllBad(r - 1) \o Bad(r)
+    IN  Verdict(AllBad(Len(e.rounds)), <<>>, -1)
+
 =============================================================================
